@@ -1,7 +1,7 @@
 (* Settings validation (C19): the shape/axis decision table of group/utils.py:check_kwargs_shape
    (as repaired: 2-D option lists are only valid with axis=(0,1)), enumerated options,
    dimensionality guards and range checks. *)
-From Coq Require Import List Bool Arith ZArith Floats.PrimFloat.
+From Coq Require Import List Bool Arith ZArith String Floats.PrimFloat.
 Import ListNotations.
 From ByC Require Import Base.Result Harness.Compare.
 
@@ -73,6 +73,31 @@ Inductive opt := OptValid (i : nat) | OptOther.
 Definition option_ok (n_valid : nat) (o : opt) : bool :=
   match o with OptValid i => Nat.ltb i n_valid | OptOther => false end.
 
+(* the documented value tables of the enumerated options (None = Python None) *)
+Inductive optname := OCenter | OBurstMethod | OFirstExtrema | ODirection | OProgress | OShapeFirstExtrema.
+Definition documented_options (o : optname) : list (option string) :=
+  match o with
+  | OCenter => [Some "peak"; Some "trough"]%string
+  | OBurstMethod => [Some "cycles"; Some "amp"]%string
+  | OFirstExtrema => [Some "peak"; Some "trough"; None]%string
+  | ODirection => [Some "both"; Some "next"; Some "last"]%string
+  | OProgress => [None; Some "tqdm"; Some "tqdm.notebook"]%string
+  | OShapeFirstExtrema => []     (* compute_shape_features refuses any first_extrema override (implementation choice) *)
+  end.
+Definition ostr_eqb (a b : option string) : bool := option_eqb String.eqb a b.
+Fixpoint index_of (v : option string) (l : list (option string)) : option nat :=
+  match l with
+  | [] => None
+  | x :: t => if ostr_eqb v x then Some O else option_map S (index_of v t)
+  end.
+Definition to_opt (o : optname) (v : option string) : opt :=
+  match index_of v (documented_options o) with Some i => OptValid i | None => OptOther end.
+Definition option_accepts (o : optname) (v : option string) : bool :=
+  option_ok (List.length (documented_options o)) (to_opt o v).
+
+(* sampling rate: positive *)
+Definition fs_ok (fs : float) : bool := (0 <? fs)%float.
+
 (* dimensionality / fitted-state guards *)
 Definition bycycle_fit_dim_ok (ndim : nat) : bool := Nat.eqb ndim 1.
 Definition group_fit_dim_ok (ndim : nat) : bool := Nat.eqb ndim 2 || Nat.eqb ndim 3.
@@ -89,3 +114,11 @@ Definition run_in_range (x : float * float * float) : bool := let '(v, lo, hi) :
 Definition bad_in_range := report run_in_range Bool.eqb.
 Definition run_amp_threshes (x : float * float) : bool := amp_threshes_ok (fst x) (snd x).
 Definition bad_amp_threshes := report run_amp_threshes Bool.eqb.
+Definition bad_min_n := report min_n_ok Bool.eqb.
+Definition run_option (x : optname * option string) : bool := option_accepts (fst x) (snd x).
+Definition bad_option := report run_option Bool.eqb.
+Definition bad_fs := report fs_ok Bool.eqb.
+Inductive guard := GFit (ndim : nat) | GGroup (ndim : nat) | GPlot (fitted : bool).
+Definition run_guard (g : guard) : bool :=
+  match g with GFit d => bycycle_fit_dim_ok d | GGroup d => group_fit_dim_ok d | GPlot f => plot_ok f end.
+Definition bad_guard := report run_guard Bool.eqb.
